@@ -166,7 +166,8 @@ def xsd_text(s: dict) -> str:
                            f'</xs:complexType>')
         elif t['kind'] == 'simple':
             b = t['base'] if t['base'].startswith('xs:') else 't:' + t['base']
-            out.append(f'<xs:simpleType name="{t["name"]}"><xs:restriction base="{b}"><xs:maxInclusive '
+            fin = ' final=""' if s['finalDefault'] else ''
+            out.append(f'<xs:simpleType name="{t["name"]}"{fin}><xs:restriction base="{b}"><xs:maxInclusive '
                        f'value="{t["max"]}"/></xs:restriction></xs:simpleType>')
         else:
             out.append(f'<xs:complexType name="{t["name"]}"{attrs(t)}><xs:simpleContent><xs:extension '
@@ -185,9 +186,9 @@ def xsd_text(s: dict) -> str:
         if e['subst']:
             a += f' substitutionGroup="t:{e["subst"]}"'
         out.append(f'<xs:element name="{e["name"]}"{a}/>')
-    refs = ''.join(f'<xs:element ref="t:{e["name"]}" minOccurs="0" maxOccurs="unbounded"/>' for e in s['elems']
-                   if any(m['subst'] == e['name'] for m in s['elems']))
-    out.append(f'<xs:element name="root"><xs:complexType><xs:sequence>{refs}</xs:sequence></xs:complexType></xs:element>')
+    for e in s['elems']:
+        out.append(f'<xs:element name="r_{e["name"]}"><xs:complexType><xs:sequence><xs:element ref="t:{e["name"]}" '
+                   f'minOccurs="0" maxOccurs="unbounded"/></xs:sequence></xs:complexType></xs:element>')
     out.append('</xs:schema>')
     return '\n'.join(out)
 
@@ -219,14 +220,15 @@ CONTENTS = [  # (id, text, children)
 
 
 def content_ok(byname: dict, ty: str, cv: tuple, fixed: Optional[str]) -> bool:
-    """is the content variant valid for the governing type (element fixed value applied to empty text)"""
+    """is the (concrete) content variant valid for the governing type (element fixed value applied to empty
+    text)"""
     _, text, children = cv
     t = byname[ty]
     if t['kind'] == 'complex':
         if text is not None and text.strip():
             return False
         names = chain_elems(byname, ty)
-        kids = [names[-1] if c == 'LAST' else c for c in children]
+        kids = list(children)
         pos = -1
         for c in kids:
             if c not in names or names.index(c) <= pos:
@@ -341,7 +343,7 @@ def introspect(schema: Any) -> Optional[dict]:
             'block': [m for m in (getattr(o, 'block', '') or '').split() if m in METHS]})
     names = {o.local_name: idx[id(o)] for o in objs if o.name and o.name.startswith('{%s}' % T)}
     elems, eidx = [], {}
-    order = [e for e in schema.elements.values() if e.local_name != 'root']
+    order = [e for e in schema.elements.values() if not e.local_name.startswith('r_')]
     order.sort(key=lambda e: (0 if e.substitution_group is None else
                               1 if schema.maps.elements[e.substitution_group].substitution_group is None else 2))
     for i, e in enumerate(order):
@@ -387,6 +389,10 @@ def kinds_of(errs: list) -> list[str]:
                     break
         out.add(k)
     return sorted(out)
+
+
+def concrete(cv: tuple, last: str) -> tuple:
+    return (cv[0], cv[1], [last if c == 'LAST' else c for c in cv[2]])
 
 
 def make_elem(name: str, xsi: Optional[str], nil: Optional[str], cv: tuple, last: str) -> Any:
@@ -440,6 +446,11 @@ def run_schema(ctx: Ctx, drv: Optional[Driver], s: dict, v11: bool) -> None:
                     if byname[a.local_name]['kind'] == 'simple' and d == 'extension' and a is not b:
                         want = False
                     if real != want and not (d is not None and a is b):
+                        ucase = {'v': ver, 'schema': s, 't': a.local_name, 'u': b.local_name, 'd': d}
+                        fid = known_match(ucase, {'is_derived': real})
+                        if fid:
+                            ctx.known_hit(fid)
+                            continue
                         ctx.failure('is_derived differs from reachability over the declared base types '
                                     '(with the requested derivation method on the chain)',
                                     {'v': ver, 'schema': s, 't': a.local_name, 'u': b.local_name, 'd': d},
@@ -453,7 +464,8 @@ def run_schema(ctx: Ctx, drv: Optional[Driver], s: dict, v11: bool) -> None:
             ctx.count('is_blocked:' + str(real))
     # ---- (2)+(3) element level
     tnames = [t['name'] for t in s['types']]
-    contents = CONTENTS if not ctx.quick() else CONTENTS
+    contents = CONTENTS
+    variants: dict = {}
     for e in s['elems']:
         xe = schema.elements[e['name']]
         ei = g['eidx'][e['name']]
@@ -464,9 +476,12 @@ def run_schema(ctx: Ctx, drv: Optional[Driver], s: dict, v11: bool) -> None:
             else:
                 last_x = last
             for nil in (None, 'true', 'false', ' 1 ', 'x'):
-                for cv in contents:
-                    if ctx.quick() and nil is not None and cv[0] not in (0, 1, 6, 9):
+                for cv0 in contents:
+                    if ctx.quick() and nil is not None and cv0[0] not in (0, 1, 6, 9):
                         continue
+                    cv = concrete(cv0, last_x)
+                    vkey = (cv[1], tuple(cv[2]))
+                    vid = variants.setdefault(vkey, len(variants))
                     el = make_elem(e['name'], xsi, nil, cv, last_x)
                     kinds = kinds_of(list(schema.iter_errors(el, namespaces=NS)))
                     real_valid = not kinds
@@ -480,13 +495,17 @@ def run_schema(ctx: Ctx, drv: Optional[Driver], s: dict, v11: bool) -> None:
                         continue
                     want = spec_element(s, e, xsi, nil, cv)
                     if real_valid != want:
-                        ctx.failure('element %s by the library but %s by the property' % (
-                            ('accepted', 'invalid') if real_valid else ('rejected', 'valid')), case,
-                            {'error_kinds': kinds})
+                        fid = known_match(case, {'error_kinds': kinds, 'expected_valid': want})
+                        if fid:
+                            ctx.known_hit(fid)
+                        else:
+                            ctx.failure('element %s by the library but %s by the property' % (
+                                ('accepted', 'invalid') if real_valid else ('rejected', 'valid')), case,
+                                {'error_kinds': kinds})
                     xq: Any = None if xsi is None else (g['names'][xsi] if xsi in g['names'] else 'unknown')
                     queries.append({'op': 'elem', 'e': ei, 'declTy': g['elems'][ei]['ty'], 'xsi': xq,
                                     'nil': nil.strip() if nil is not None else None, 'text': cv[1] is not None,
-                                    'children': bool(cv[2]), 'variant': cv[0] * 2 + (1 if e['fixed'] else 0)})
+                                    'children': bool(cv[2]), 'variant': vid * 2 + (1 if e['fixed'] else 0)})
                     pend.append(('elem', case, kinds))
                     ctx.case({'v': ver, 'types': g['types'], 'e': g['elems'][ei], 'xsi': xq, 'nil': nil, 'cv': cv[0]},
                              xsi is not None or nil is not None or e['fixed'] is not None, tag=f'{ver}/element')
@@ -497,32 +516,20 @@ def run_schema(ctx: Ctx, drv: Optional[Driver], s: dict, v11: bool) -> None:
     # ---- substitution pairs
     for h in s['elems']:
         for m in s['elems']:
-            if m is h or m['subst'] is None:
+            if m is h:
                 continue
-            root = ET.Element('{%s}root' % T)
+            root = ET.Element('{%s}r_%s' % (T, h['name']))
             kid = ET.SubElement(root, '{%s}%s' % (T, m['name']))
             if byname[m['type']]['kind'] != 'complex':
                 kid.text = '5'
-            if not any(x['subst'] == h['name'] for x in s['elems']):
-                continue            # h is not referenced by the root model
-            # only test m against the first head particle it could match: root model lists heads in order,
-            # a member of several listed heads is matched by the first; restrict to direct/indirect heads
-            chain = []
-            cur = m
-            while cur['subst'] is not None:
-                cur = ebyname[cur['subst']]
-                chain.append(cur['name'])
-            if h['name'] not in chain:
-                continue
-            listed = [x['name'] for x in s['elems'] if any(y['subst'] == x['name'] for y in s['elems'])]
-            firsts = [n for n in listed if n in chain or n == m['name']]
-            if firsts[0] != h['name']:
-                continue
             kinds = kinds_of(list(schema.iter_errors(root, namespaces=NS)))
-            real = 'blocked' if 'substBlocked' in kinds else 'notSubstitute' if 'children' in kinds else 'accepted'
+            real = ('blocked' if 'substBlocked' in kinds else
+                    'notSubstitute' if 'children' in kinds or 'abstractElement' in kinds else 'accepted')
             case = {'v': ver, 'schema': s, 'head': h['name'], 'member': m['name']}
             want = spec_subst(s, h, m)
-            if (real == 'accepted') != (want == 'accepted'):
+            if (real == 'accepted') != (want == 'accepted') and known_match(case, {'real': real, 'want': want}):
+                ctx.known_hit('C07-F1')
+            elif (real == 'accepted') != (want == 'accepted'):
                 ctx.failure('substitution %s by the library but the property says %s' % (real, want), case,
                             {'error_kinds': kinds})
             queries.append({'op': 'subst', 'head': g['eidx'][h['name']], 'm': g['eidx'][m['name']]})
@@ -536,13 +543,14 @@ def run_schema(ctx: Ctx, drv: Optional[Driver], s: dict, v11: bool) -> None:
         for ti, o in enumerate(objs):
             if not (o.name and o.name.startswith('{%s}' % T)) or o.local_name not in byname:
                 continue
-            for cv in CONTENTS:
+            for (text, kids), vid in variants.items():
+                cv = (vid, text, list(kids))
                 for fx in (0, 1):
                     fixed = '5' if fx else None
                     if content_ok(byname, o.local_name, cv, fixed):
-                        cok.append([ti, cv[0] * 2 + fx])
+                        cok.append([ti, vid * 2 + fx])
                     if fixed_ok(byname, o.local_name, cv, fixed):
-                        fok.append([ti, cv[0] * 2 + fx])
+                        fok.append([ti, vid * 2 + fx])
         ans = drv.query([{'types': g['types'], 'elems': g['elems'], 'contentOk': cok, 'fixedOk': fok,
                           'queries': queries}])[0]
         if 'err' in ans:
@@ -562,7 +570,11 @@ def run_schema(ctx: Ctx, drv: Optional[Driver], s: dict, v11: bool) -> None:
                         and sorted(set(mk)) != sorted({('content' if k == 'children' else k) for k in real}):
                     ctx.mismatch('element checks', case, real, mk)
             elif op == 'subst':
-                if m['v'] != real:
+                ebn = {e['name']: e for e in s['elems']}
+                exact = not ebn[case['member']]['abstract'] and not ebn[case['head']]['abstract']
+                # with an abstract head or member several rejection reasons apply at once and the library
+                # reports whichever it meets first: only accepted/rejected is compared there
+                if (m['v'] == 'accepted') != (real == 'accepted') or (exact and m['v'] != real):
                     ctx.mismatch('substitution verdict', case, real, m['v'])
 
 
@@ -571,7 +583,7 @@ ALT_TABLES = [
     [("@k='a'", 'A1'), ("@k='b' or @j", 'A2'), (None, 'A3')],
     [("@j", 'A2'), ("@k='a'", 'A1')],
     [("@k='a' and @j", 'A3'), ("@k", 'A1'), ("@j", 'A2')],
-    [(None, 'A2'), ("@k='a'", 'A1')],
+    [("@k", 'A3'), (None, 'A1')],
 ]
 
 
@@ -643,7 +655,42 @@ def load_findings() -> list[dict]:
 
 
 def known_match(case: dict, detail: Any) -> Optional[str]:
-    return None          # no finding recorded for C07
+    """C07-F1 (see notes/findings/C07.json): exact rule, evaluated on the generator's AST."""
+    if not any(e['id'] == 'C07-F1' and e.get('status') == 'known' for e in load_findings()):
+        return None
+    s = case.get('schema')
+    if not s:
+        return None
+    byname = {t['name']: t for t in s['types']}
+    if 't' in case and 'u' in case:         # unit level
+        t, u = byname.get(case['t']), byname.get(case['u'])
+        if t and u and t['kind'] == 'sc' and u['kind'] == 'simple' and case.get('d') == 'restriction' \
+                and detail.get('is_derived') is True:
+            ms = chain_methods(byname, case['t'], case['u'])
+            if ms is not None and 'restriction' not in ms:
+                return 'C07-F1'
+        return None
+    if 'head' in case and 'member' in case:          # substitution: same wrong is_blocked answer
+        ebyname = {e['name']: e for e in s['elems']}
+        h, m = ebyname[case['head']], ebyname[case['member']]
+        x, d = byname[m['type']], byname[h['type']]
+        blk = eff_block(s, h)
+        if x['kind'] == 'sc' and d['kind'] == 'simple' and 'restriction' in blk and 'extension' not in blk \
+                and 'substitution' not in blk and detail.get('real') == 'blocked' and detail.get('want') == 'accepted':
+            ms = chain_methods(byname, m['type'], h['type'])
+            if ms is not None and set(ms) == {'extension'} and len(ms) >= 2:
+                return 'C07-F1'
+        return None
+    if 'element' in case and case.get('xsi') in byname:
+        e = next(x for x in s['elems'] if x['name'] == case['element'])
+        x, d = byname[case['xsi']], byname[e['type']]
+        blk = eff_block(s, e)
+        if x['kind'] == 'sc' and d['kind'] == 'simple' and 'restriction' in blk and 'extension' not in blk \
+                and detail.get('error_kinds') == ['blocked'] and detail.get('expected_valid') is True:
+            ms = chain_methods(byname, case['xsi'], e['type'])
+            if ms is not None and set(ms) == {'extension'} and len(ms) >= 2:
+                return 'C07-F1'
+    return None
 
 
 def explore(ctx: Ctx, drv: Optional[Driver], n: int) -> None:
@@ -660,7 +707,7 @@ def explore(ctx: Ctx, drv: Optional[Driver], n: int) -> None:
 def run(ctx: Ctx, driver_ok: bool) -> None:
     for e in load_findings():
         ctx.known.append(e)
-    explore(ctx, Driver('drv_c07') if driver_ok else None, ctx.pick(8, 80))
+    explore(ctx, Driver('drv_c07') if driver_ok else None, ctx.pick(20, 150))
     ctx.extra['exhaustive'] = False
     ctx.extra['explanation'] = ('schemas are seeded random; per schema: all type pairs x derivation argument, all '
                                 'type x element pairs, every type name as xsi:type x nil variants x content '
